@@ -754,6 +754,8 @@ def _gen_item(r, g, n, avoid, kind):
         # an integer constant expression converted to a pointer: the object is wider / of another kind
         # than the expression the evaluator reduced
         e = g.expr()
+        if r.random() < 0.5:
+            e = g.unary(r.choice("-~"), e) or e     # negative and all-ones values are the interesting ones
         via = r.choice((None, None, "int", "uint", "short", "uchar", "long", "ulong", "schar"))
         v = e.value if via is None else wrap(e.value, via)
         if via is not None and v != e.value:
@@ -817,6 +819,8 @@ def _gen_item(r, g, n, avoid, kind):
     if kind == "aggregate":
         # pointer, long and a char array member (decreasing alignment: no inner padding)
         e, e2 = g.expr(), g.expr()
+        if r.random() < 0.5:
+            e = g.unary(r.choice("-~"), e) or e
         if not 0 <= e.value < (1 << 63):
             tags.add(K_PACK)
         lv = dest_value(e2, "long", tags)
